@@ -174,6 +174,9 @@ type cutReader struct {
 
 func (c *cutReader) Read(p []byte) (int, error) {
 	if c.left <= 0 {
+		// let the encoder goroutine behind the stream finish before the failure is reported: it
+		// reads the hub's object storage, which the next step may write to
+		_, _ = io.Copy(io.Discard, c.r)
 		return 0, ErrNetMid
 	}
 	if len(p) > c.left {
@@ -196,12 +199,17 @@ func (r *rpShim) ReceivePack(ctx context.Context, req *packp.ReferenceUpdateRequ
 	r.n.mu.Lock()
 	f := r.n.Fault
 	r.n.mu.Unlock()
+	if req.Packfile != nil {
+		// go-git's push encodes the pack in a goroutine of its own, which goes on reading the
+		// replica's object storage after a failed exchange has returned to the caller. Whatever
+		// happens below, read the stream to its end first, so that this goroutine is finished
+		// before the simulation moves to the next step (go-git's storage is not goroutine-safe).
+		pf := req.Packfile
+		defer func() { _, _ = io.Copy(io.Discard, pf) }()
+	}
 	switch {
 	case f == "mid-advert":
 		r.n.fire("mid-advert")
-		if req.Packfile != nil {
-			_ = req.Packfile.Close()
-		}
 		return nil, ErrNetMid
 	case len(f) > 13 && f[:13] == "partial-push:":
 		// the server applied only the first n commands before the connection died
